@@ -19,8 +19,10 @@ CHECKS.update({
              "Contracts at every elimination step (pivots non-zero, solution preserved, M-matrix invariant re-established) on fresh pre-state symbols, the assembled "
              "system proved equal to the cable-physics specification (specs/cable.py), the final view proved the identity; jax.sparse decided via the CSR denotation "
              "of the arrays handed to spsolve; bwd_euler/crank_nicolson/fwd_euler scheme selection and the Crank-Nicolson lemma. All REAL parameter values are covered "
-             "by z3 per structure; structures are enumerated exhaustively up to the stated bound (not unbounded).",
-        technique="contract-based deductive verification of the real solver code per static structure (z3 QF_NRA), structures bounded-exhaustive"),
+             "by z3 per structure; structures are enumerated exhaustively up to the stated bound (not unbounded). The level-schedule helpers the elimination is driven by "
+             "(compute_levels, compute_children_in_level, compute_parents_in_level, compute_children_indices) are in addition proved for parent vectors of ANY length: "
+             "verification conditions generated from their source text with loop invariants and index-in-range obligations (jxverif/astvc.py, DESIGN.md §9.9).",
+        technique="contract-based deductive verification of the real solver code per static structure (z3 QF_NRA), structures bounded-exhaustive; AST-generated VCs with loop invariants (z3, unbounded) for the level-schedule helpers"),
     "C04": dict(cat="proof", ref="DESIGN.md §4 C04",
         text="The real gate functions, compute_current, init_state and parameter dictionaries of HH, Leak, Na, K, Km, CaL, CaT and IonotropicSynapse are executed symbolically and "
              "proved equal to the published equations (specs/kinetics.py) for all v in [-150,100] and parameter ranges: exact equality where the exp-clip is provably inactive, "
